@@ -8,7 +8,7 @@
 (*   Iface {path, res:[{api,st,byid,bin,d}]}                                 *)
 (*   Cast  {path, res:[{api,st,b,n}]}                                        *)
 (*   InputMutated {path}                 the harness saw the input change    *)
-EXTENDS TPath, TraceKit
+EXTENDS GoDump, TraceKit
 
 Trace == ndJsonDeserialize("trace.ndjson")
 VARIABLES l, doc
@@ -82,28 +82,6 @@ KidsOk(e) ==
          IN  Chk(ok, [tag |-> "MM", i |-> l, ev |-> "Kids", api |-> r.api, label |-> exp.lbl, exp |-> "kids", got |-> r.st,
                       detail |-> IF r.st = "ok" /\ Len(r.kids) # NChildren(exp.v) THEN "count" ELSE "kid"])
 
-\* Go value dump vs abstract value
-RECURSIVE DumpOk(_, _, _, _)
-DumpOk(d, v, byid, bin) ==
-  IF v.t = T_BOOL THEN d.k = "bool" /\ d.b = <<IF v.b[1] = 0 THEN 0 ELSE 1>>
-  ELSE IF v.t = T_I8 THEN d.k = "int" /\ (d.b = SignExt8(v.b) \/ d.b = ZeroExt8(v.b))
-  ELSE IF v.t \in IntKinds THEN d.k = "int" /\ d.b = SignExt8(v.b)
-  ELSE IF v.t = T_DBL THEN d.k = "dbl" /\ d.b = v.b
-  ELSE IF v.t = T_STR THEN d.k = (IF bin THEN "bin" ELSE "str") /\ d.b = v.b
-  ELSE IF v.t \in {T_LIST, T_SET} THEN
-       d.k = "list" /\ Len(d.e) = Len(v.e) /\ \A i \in 1..Len(v.e) : DumpOk(d.e[i].val, v.e[i], byid, bin)
-  ELSE IF v.t = T_STRUCT THEN
-       /\ d.k = (IF byid THEN "idmap" ELSE "imap") /\ Len(d.e) = Len(v.f)
-       /\ \A i \in 1..Len(v.f) : \E j \in 1..Len(d.e) :
-             d.e[j].key.b = ZeroExt8(BE16(v.f[i].id)) /\ DumpOk(d.e[j].val, v.f[i].v, byid, bin)
-  ELSE \* map
-       /\ Len(d.e) = Len(v.e)
-       /\ IF v.kt = T_STR THEN d.k = "smap" /\ \A i \in 1..Len(v.e) : \E j \in 1..Len(d.e) :
-                                    d.e[j].key.b = v.e[i].k.b /\ DumpOk(d.e[j].val, v.e[i].v, byid, bin)
-          ELSE IF v.kt \in IntKinds THEN d.k = "imap" /\ \A i \in 1..Len(v.e) : \E j \in 1..Len(d.e) :
-                                    IntKeyMatches(v.e[i].k, d.e[j].key.b) /\ DumpOk(d.e[j].val, v.e[i].v, byid, bin)
-          ELSE d.k = "amap" /\ \A i \in 1..Len(v.e) : \E j \in 1..Len(d.e) :
-                                    DumpOk(d.e[j].key, v.e[i].k, byid, bin) /\ DumpOk(d.e[j].val, v.e[i].v, byid, bin)
 IfaceOk(e) ==
   LET exp == Lookup(doc, IdPath(e.path)) IN
   IF exp.st # "found" THEN TRUE
